@@ -50,12 +50,13 @@ class World(object):
         self.case = case
         self.stats = stats
         self.root = os.path.join(base, "w")
-        if os.path.lexists(self.root):
-            shutil.rmtree(self.root)
-        os.makedirs(self.root)
         self.dirs = dict((d, os.path.join(self.root, d)) for d in DIRS)
         self.outside = os.path.join(self.root, "outside")
-        os.makedirs(self.outside)
+        for d in DIRS:
+            if os.path.lexists(self.dirs[d]):
+                shutil.rmtree(self.dirs[d])
+        if not os.path.isdir(self.outside):
+            os.makedirs(self.outside)
         # identifiers: abstract token <-> concrete canonical text
         self.ids = {"u0": str(uuid.UUID(int=rng.getrandbits(128), version=4)),
                     "rhsm": str(uuid.UUID(int=rng.getrandbits(128), version=4))}
@@ -76,8 +77,7 @@ class World(object):
                     f.write("2001-01-01T00:00:00\n")
         for d in DIRS:
             for m in MARKS:
-                with open(self.live(d, m), "w") as f:
-                    f.write(self.live_text(d, m))
+                self.restore_targets(d, m)
                 k = init[m][d]
                 if k != "absent":
                     self.put_marker(d, m, k)
@@ -107,6 +107,30 @@ class World(object):
 
     def live_text(self, d, m):
         return "TARGET %s %s - must stay as it is\n" % (d, m)
+
+    def restore_targets(self, d, m):
+        """The link targets outlive a case; put them back if the previous history damaged them."""
+        if self.live_state(d, m) != "intact":
+            p = self.live(d, m)
+            if os.path.lexists(p):
+                os.remove(p)
+            with open(p, "w") as f:
+                f.write(self.live_text(d, m))
+            os.utime(p, ns=(SENT_NS, SENT_NS))
+        if os.path.lexists(self.dead(d, m)):
+            os.remove(self.dead(d, m))
+
+    def live_state(self, d, m):
+        """absent / intact / changed: size and the sentinel mtime first, the bytes only if those look untouched."""
+        p = self.live(d, m)
+        try:
+            s = os.lstat(p)
+        except OSError:
+            return "absent"
+        text = self.live_text(d, m)
+        if not stat.S_ISREG(s.st_mode) or s.st_size != len(text) or s.st_mtime_ns != SENT_NS:
+            return "changed"
+        return "intact"
 
     def put_marker(self, d, m, k, check=True):
         p = self.marker(d, m)
@@ -161,10 +185,7 @@ class World(object):
             st["tgt"][d] = {}
             for m in MARKS:
                 st[m][d] = kind_of(self.marker(d, m))
-                lk = kind_of(self.live(d, m))
-                if lk == "file":
-                    with open(self.live(d, m)) as f:
-                        lk = "intact" if f.read() == self.live_text(d, m) else "changed"
+                lk = self.live_state(d, m)
                 st["tgt"][d][m] = {"live": lk, "dead": "absent" if kind_of(self.dead(d, m)) == "absent" else "exists"}
         k = kind_of(self.idfile)
         raw = ""
